@@ -77,7 +77,18 @@ def job_lexpos(prog, chk, mi, k, n, tier):
         if ir.vn(kind) != 'MatchingError':
             return ('err-other', ir.vn(kind))
         rd = ir.f(kind.fields[0])
-        return ('err', ir.get(rd, 'offset'), ir.get(rd, 'line'), ir.get(rd, 'column'))
+        return ('err', ir.get(rd, 'offset'), ir.get(rd, 'line'), ir.get(rd, 'column'), ir.get(rd, 'context_start_line'), ir.get(rd, 'context_start_offset'))
+
+    def marked_rows(ctx):
+        # rows of the excerpt printed by contextualize: (label, text, marked)
+        rows = []
+        for ln in (ctx or '').split('\n'):
+            mm = re.match(r'^\s*(\d+) │ (.*)$', ln)
+            if mm:
+                txt = mm.group(2)
+                marked = '◀' in txt
+                rows.append((int(mm.group(1)), txt.split(' ◀')[0] if marked else txt, marked))
+        return rows
     try:
         for kind in ('insert', 'replace', 'truncate'):
             for p in positions[k::n]:
@@ -123,6 +134,12 @@ def job_lexpos(prog, chk, mi, k, n, tier):
                                 probs.append(f"reported offset {off} lies outside the malformed unit [{unit}, {jpos}]")
                             if line != 1 + text[:off].count('\n'):
                                 probs.append(f"reported line {line}, but offset {off} is on line {1 + text[:off].count(chr(10))}")
+                            # the excerpt printed by contextualize starts at (context_start_line, context_start_offset): the
+                            # pair must be consistent and not after the error, or the marker lands on another line
+                            csl, cso = o[4], o[5]
+                            if isinstance(csl, int) and isinstance(cso, int):
+                                if not (0 <= cso <= off) or csl != 1 + text[:cso].count('\n'):
+                                    probs.append(f"context start (line {csl}, offset {cso}) is inconsistent: offset {cso} is on line {1 + text[:max(cso, 0)].count(chr(10))} (error at offset {off})")
                     # the model of the error tree (alternative order depends on VecDeque capacities) is validated against the native compiler
                     nat = runner.compile(text)
                     nrep = (nat.get('error') or {}).get('report') if not nat.get('ok') else None
@@ -131,6 +148,26 @@ def job_lexpos(prog, chk, mi, k, n, tier):
                             chk.res.diff_ok += 1
                         else:
                             chk.res.diff_fail.append(f"{sig} at {jpos}: MIR run reports offset {o[1]} line {o[2]}, native reports {nrep['offset']} / {nrep['line']}")
+                    if nrep is not None:
+                        rows = marked_rows((nat.get('error') or {}).get('contextualize'))
+                        marked = [(lb, tx) for lb, tx, mk in rows if mk]
+                        src_lines = text.split('\n')
+                        want_line = src_lines[nrep['line'] - 1].rstrip('\r') if 0 < nrep['line'] <= len(src_lines) else None
+                        chk.res.obligations += 1
+                        # the excerpt shows the source from the context start on; the marked row is the (rest of the) error line.
+                        # A part without any visible character has no row (blank rows are not printed): then no row is marked
+                        visible = None
+                        if want_line is not None:
+                            line_start = len('\n'.join(src_lines[:nrep['line'] - 1])) + (1 if nrep['line'] > 1 else 0)
+                            visible = want_line[max(0, nrep['context_start_offset'] - line_start):] if nrep['context_start_line'] == nrep['line'] else want_line
+                        if visible is not None and not visible.strip():
+                            okm = not marked
+                        else:
+                            okm = visible is not None and len(marked) == 1 and marked[0][0] == nrep['line'] and marked[0][1].strip() == visible.strip()
+                        if okm:
+                            chk.res.discharged += 1
+                        else:
+                            chk.violation(sig + ' marker', f"contextualize marks {marked} but the error is on line {nrep['line']} ({want_line!r}) (junk character {jc!r} at offset {jpos}): {text!r}", {'kind': 'text', 'text': text})
                     if not probs:
                         chk.res.discharged += 1
                         continue
@@ -144,6 +181,8 @@ def job_lexpos(prog, chk, mi, k, n, tier):
                             nprobs.append('outside')
                         if nrep['line'] != 1 + text[:nrep['offset']].count('\n'):
                             nprobs.append('line')
+                        if nrep['context_start_line'] != 1 + text[:nrep['context_start_offset']].count('\n') or nrep['context_start_offset'] > nrep['offset']:
+                            nprobs.append('context')
                     if nprobs:
                         chk.violation(sig, f"{'; '.join(probs)} (junk character {jc!r} at offset {jpos}): {text!r}", {'kind': 'text', 'text': text})
                     else:
